@@ -267,7 +267,7 @@ Proof.
   unfold chmod, k_chmod. change (follow_of SlEval) with true in R.
   destruct (klookup s sv false true p) as [par kind name n|par name md| |e]; cbn [walk_rel] in R.
   - destruct R as (R1 & R2 & R3 & _). specialize (Hns n H eq_refl R1 R2). rewrite R2, R1. cbn [is_file_exists negb].
-    unfold owner_or_root, set_mode_ok. rewrite (sh_admin _ _ H). cbn [orb negb andb].
+    unfold owner_or_root, set_mode_ok, chmod_mode. rewrite (sh_admin _ _ H). cbn [orb negb andb].
     destruct (get (f_heap s) n) as [[ch m|dt k i m|t m]|]; try congruence;
       rewrite orb_true_r; reflexivity.
   - destruct R as (R1 & R2 & _). rewrite R2, R1. reflexivity.
